@@ -1,5 +1,6 @@
 import UgoVerif.Proofs.InvokeBind
 import UgoVerif.Proofs.ShiftOps
+import UgoVerif.Proofs.ShiftRet
 /-
   C14: the two entries into a compiled function — `prologue` of the child's `Run` (Go-side call) and
   `xOpCallCompiled` without spread in the parent (in-script call) — end in states related by the
